@@ -45,6 +45,10 @@ const ADVANCES: [i64; 3] = [0, 1_000, 61_000];
 /// expire; 61 s + 1 s steps and 64 s cover the retransmission at about 63 s of a peer that is
 /// polled at every deadline)
 const SILENCES: [&[i64]; 4] = [&[61_000], &[61_000, 1_000], &[61_000, 1_000, 1_000], &[64_000]];
+/// clock jumps without a poll ("at any instants"): the late segment is the first thing the
+/// interface sees after the jump, so it meets round-trip samples, timers and caches that are
+/// 2^30 .. 2^33 ms (12 days .. 99 days) and 2^40 ms old
+const JUMPS: [i64; 7] = [1 << 30, (1 << 31) - 1, 1 << 31, (1 << 32) - 1, 1 << 32, 1 << 33, 1 << 40];
 
 // ------------------------------------------------------------------------------------------
 // events, replayable runs
@@ -54,6 +58,9 @@ const SILENCES: [&[i64]; 4] = [&[61_000], &[61_000, 1_000], &[61_000, 1_000, 1_0
 pub enum Ev {
     Frame(Vec<u8>),
     Advance(i64),
+    /// the clock moves on WITHOUT a poll (a host that slept): the next frame meets the
+    /// interface at a far later instant than its timers were last serviced
+    Jump(i64),
 }
 fn evs_to_json(evs: &[Ev]) -> Value {
     Value::Array(
@@ -61,6 +68,7 @@ fn evs_to_json(evs: &[Ev]) -> Value {
             .map(|e| match e {
                 Ev::Frame(f) => json!({"frame": hex(f)}),
                 Ev::Advance(ms) => json!({"advance_ms": ms}),
+                Ev::Jump(ms) => json!({"jump_ms": ms}),
             })
             .collect(),
     )
@@ -72,6 +80,8 @@ fn evs_from_json(v: &Value) -> Vec<Ev> {
                 .filter_map(|e| {
                     if let Some(h) = e.get("frame").and_then(|x| x.as_str()) {
                         Some(Ev::Frame(unhex(h)))
+                    } else if let Some(ms) = e.get("jump_ms").and_then(|x| x.as_i64()) {
+                        Some(Ev::Jump(ms))
                     } else {
                         e.get("advance_ms").and_then(|x| x.as_i64()).map(Ev::Advance)
                     }
@@ -155,12 +165,17 @@ fn run_events(cfg: Cfg, evs: &[Ev], want_log: bool) -> RunOut {
         let o = match ev {
             Ev::Frame(f) => w.inject(f),
             Ev::Advance(ms) => w.advance(*ms),
+            Ev::Jump(ms) => {
+                w.now_ms += *ms;
+                Outcome::Ok
+            }
         };
         let tx = w.take_tx();
         if want_log {
             let what = match ev {
                 Ev::Frame(f) => format!("frame[{}] {}", f.len(), hex(f)),
                 Ev::Advance(ms) => format!("advance {} ms", ms),
+                Ev::Jump(ms) => format!("clock jumps {} ms without a poll", ms),
             };
             log.push(format!("{:2}: t={}ms {} -> {:?} tx={:?}", i, w.now_ms, what, o, tx.iter().map(|f| pkt::classify(cfg.medium, f)).collect::<Vec<_>>()));
         }
@@ -953,6 +968,11 @@ fn explore(tier: Tier) -> Explored {
                     evs.push(Ev::Frame(f1.frame.clone()));
                     scripts.push(evs);
                 }
+                // the host sleeps with our SYN-ACK in flight; the late segment is the first
+                // thing polled afterwards
+                for j in JUMPS {
+                    scripts.push(vec![Ev::Frame(open.frame.clone()), Ev::Jump(j), Ev::Frame(f1.frame.clone())]);
+                }
             }
         }
         if cfg.variant == 2 {
@@ -962,6 +982,11 @@ fn explore(tier: Tier) -> Explored {
                     let mut evs: Vec<Ev> = gap.iter().map(|ms| Ev::Advance(*ms)).collect();
                     evs.push(Ev::Frame(f.frame.clone()));
                     scripts.push(evs);
+                }
+                // the host sleeps with our FIN in flight
+                for j in JUMPS {
+                    scripts.push(vec![Ev::Jump(j), Ev::Frame(f.frame.clone())]);
+                    scripts.push(vec![Ev::Jump(j), Ev::Frame(f.frame.clone()), Ev::Advance(1_000)]);
                 }
             }
         }
@@ -1004,7 +1029,7 @@ fn explore(tier: Tier) -> Explored {
 
 pub fn run(tier: Tier) -> i32 {
     let mut rep = Report::new("C03", tier);
-    rep.assumptions.push("bounds: single-frame pass = every seed of the catalogue, every truncation, every single byte of the first 96 bytes (+ DHCP option area, NDISC/DNS message tails, whole 802.15.4 frames) set to the boundary set {0,1,7,8,0x0f,0x28,0x2f,0x3f,0x40,0x7f,0x80,0xf0,0xff,orig^1} (quick) or to all 256 values (thorough), each raw and with all locatable checksums recomputed; thorough adds every pair of positions in the first 40 bytes x every pair of values from {0,1,7,8,0x0f,0x3f,0x40,0x7f,0x80,0xf0,0xff} (checksums recomputed) and all byte strings of length <= 2 (quick: first byte from the boundary set); sequences = BFS to depth 2 (quick) / 3 (thorough) over one representative frame per distinct observable effect (reply classes x changed components) + time advances {0, 1 s, 61 s}; thorough additionally depth 2 over one representative per (effect, seed); lone-fragment seeds and the TCP sequence-space edge seeds (handshake segments placing RCV.NXT at 2^31-0x100, 2^31-0x20, 2^31-1, 2^31 and the same below 2^32, with their follow-up segments) are pinned into the alphabets, every handshake x follow-up x follow-up triple, and every handshake (or, in the variant C worlds, the application's close()) followed by a silence of 61 / 62 / 63 / 64 s and a late segment, is run as a scripted sequence; ICMPv4/ICMPv6 error messages are seeded with their quotation cut to every length (outer lengths and checksums consistent); BFS levels are cut by a wall-clock budget only with exhaustive=false reported".into());
+    rep.assumptions.push("bounds: single-frame pass = every seed of the catalogue, every truncation, every single byte of the first 96 bytes (+ DHCP option area, NDISC/DNS message tails, whole 802.15.4 frames) set to the boundary set {0,1,7,8,0x0f,0x28,0x2f,0x3f,0x40,0x7f,0x80,0xf0,0xff,orig^1} (quick) or to all 256 values (thorough), each raw and with all locatable checksums recomputed; thorough adds every pair of positions in the first 40 bytes x every pair of values from {0,1,7,8,0x0f,0x3f,0x40,0x7f,0x80,0xf0,0xff} (checksums recomputed) and all byte strings of length <= 2 (quick: first byte from the boundary set); sequences = BFS to depth 2 (quick) / 3 (thorough) over one representative frame per distinct observable effect (reply classes x changed components) + time advances {0, 1 s, 61 s}; thorough additionally depth 2 over one representative per (effect, seed); lone-fragment seeds and the TCP sequence-space edge seeds (handshake segments placing RCV.NXT at 2^31-0x100, 2^31-0x20, 2^31-1, 2^31 and the same below 2^32, with their follow-up segments) are pinned into the alphabets, every handshake x follow-up x follow-up triple, and every handshake (or, in the variant C worlds, the application's close()) followed by a silence of 61 / 62 / 63 / 64 s and a late segment, or by a clock jump WITHOUT a poll of 2^30, 2^31-1, 2^31, 2^32-1, 2^32, 2^33 or 2^40 ms and a late segment, is run as a scripted sequence; ICMPv4/ICMPv6 error messages are seeded with their quotation cut to every length (outer lengths and checksums consistent); BFS levels are cut by a wall-clock budget only with exhaustive=false reported".into());
     rep.assumptions.push("every injected frame meets a FRESH world in the base state and is followed by the probe; pair mutants and 2-byte raw frames get oracle (1)+(2) only (they are not fingerprinted, so they do not count in 'changed state')".into());
     rep.assumptions.push("the application model reads and discards received data after every poll and applies DHCP configuration events (IPv4 address, default route) like examples/dhcp_client.rs; trusted: harness frame builders, independent reply classifier".into());
     rep.assumptions.push("the 802.15.4 worlds used for frame exploration have no joined multicast group (joining one makes the very first poll panic before any frame is received: recorded under notes_outside_C03, not as a violation) and no IPv4; overflow-checks are ON in this profile, so arithmetic overflow on attacker-controlled lengths is observed as a panic".into());
